@@ -131,6 +131,7 @@ type gfRoundResult struct {
 	dupOnly    int
 	desc       string
 	nontrivial int
+	dupSamples []string
 }
 
 // gfConcRound: one world, one request multiset, sequential reference, then
@@ -194,6 +195,9 @@ func gfConcRound(r *rng, round int) (res gfRoundResult) {
 						g, []string{"cold", "warm"}[pass], qs[i], gotSet[i], wantSet[i]))
 				} else if gotExact[i] != wantExact[i] {
 					res.dupOnly++
+					if len(res.dupSamples) < 2 {
+						res.dupSamples = append(res.dupSamples, fmt.Sprintf("%d goroutines, query %s: concurrent %q, sequential %q", g, qs[i], gotExact[i], wantExact[i]))
+					}
 				}
 			}
 		}
@@ -221,13 +225,19 @@ func gfRaceMain(seed uint64, rounds int) int {
 	gfSilenceLogs()
 	r := newRng(seed)
 	t0 := time.Now()
-	evals, dup, nontrivial := 0, 0, 0
+	evals, dup, nontrivial, dupShown := 0, 0, 0, 0
 	var mism []string
 	for i := 0; i < rounds; i++ {
 		res := gfConcRound(r, i)
 		evals += res.evals
 		dup += res.dupOnly
 		nontrivial += res.nontrivial
+		for _, d := range res.dupSamples {
+			if dupShown < 3 {
+				dupShown++
+				fmt.Println("SETS-ONLY " + strings.ReplaceAll(d, "\n", "\\n"))
+			}
+		}
 		for _, m := range res.mismatches {
 			if len(mism) < 5 {
 				mism = append(mism, m+" ## "+res.desc)
